@@ -21,7 +21,7 @@ package standard
 
 //@ func (*Service).fetchAccount
 //@ requires s != nil
-//@ ensures [resolved] result2 == core.ResultSucceeded ==> result0 != nil && result1 != nil && result1 == resolved(s, name, pubKey) && result0 == walletOf(result1)
+//@ ensures [resolved] result2 == core.ResultSucceeded ==> result0 != nil && result1 != nil && result1 == resolved(s, name, pubKey) && nameOf(result0) == nameOf(walletOf(result1))
 //@ ensures [none] result2 != core.ResultSucceeded ==> result0 == nil && result1 == nil
 //@ ensures [verdict] result2 == core.ResultSucceeded || result2 == core.ResultDenied || result2 == core.ResultFailed
 
@@ -41,7 +41,7 @@ package standard
 //@ requires s != nil
 //@ modifies checkedset, deniedset
 //@ ensures [unlocked] result2 == core.ResultSucceeded ==> (!implements(result1, "e2wtypes.AccountLocker") || wasUnlocked(result1) || unlockOk(s.unlocker, result1))
-//@ ensures [ok] result2 == core.ResultSucceeded ==> result0 != nil && result1 != nil && result1 == resolved(s, name, pubKey) && result0 == walletOf(result1) && credentials != nil && ckey(credentials.Client, nameOf(result0), nameOf(result1), action) in checkedset
+//@ ensures [ok] result2 == core.ResultSucceeded ==> result0 != nil && result1 != nil && result1 == resolved(s, name, pubKey) && nameOf(result0) == nameOf(walletOf(result1)) && credentials != nil && ckey(credentials.Client, nameOf(result0), nameOf(result1), action) in checkedset
 //@ ensures [none] result2 != core.ResultSucceeded ==> result0 == nil && result1 == nil
 //@ ensures [verdict] result2 == core.ResultSucceeded || result2 == core.ResultDenied || result2 == core.ResultFailed
 //@ ensures [monotone] forall k string :: old(k in checkedset) ==> k in checkedset
